@@ -243,3 +243,18 @@ func C03DotImport() {
 	vrt.AssertMsg("emitted-functions-type-check", v == "", v)
 	vrt.Reach("end")
 }
+
+// C14OddPath: the same file as C14TypeErrors, in a module whose directory name holds a colon, a
+// blank and a percent sign (all legal in directory names; positions are spelled file:line:column,
+// so the file name itself contains colons): the type error inside the converter interface is
+// still found, the run is rejected with a diagnostic that starts with the file's position.
+func C14OddPath() {
+	const sk = "odd/w:1 %d/dup"
+	var texts []string
+	var err error
+	stderr := vrt.CaptureStderr(func() { texts, err = frontHalf(sk) })
+	vrt.SlotText(sk, "D1")
+	vrt.AssertMsg("type-error-in-converter-interface-rejected", err != nil && len(texts) == 0, stderr)
+	vrt.AssertMsg("rejection-has-positioned-diagnostic", positioned(stderr, vrt.SkeletonPath(sk)), stderr)
+	vrt.Reach("end")
+}
